@@ -6,6 +6,51 @@ import os
 VERIF = os.path.dirname(os.path.dirname(os.path.abspath(__file__)))
 
 CHECKS = {
+    "C01": dict(
+        technique="T10 CDB layouts transcribed into TLA+ (T10Cdb.tla); TLC enumerates the star+flags argument space "
+                  "with the transcription's laws as invariants (MC_T10Cdb) and exports predicted CDBs replayed into the "
+                  "42 constructors on every command set; recorded random constructions judged by TLC (Trace_Command)",
+        text="Every field of every class is driven through 0, max, every single bit and max-minus-bit over three "
+             "backgrounds plus all flag combinations, on each command set offering the class, and the bytes are compared "
+             "with an independent T10-notation oracle whose own consistency (disjoint fields, group length, "
+             "target-recovers-arguments, other bits zero) TLC checks on every case.",
+        note="Oracle = my transcription of SPC-4/SBC-3/SMC-3/MMC-6/SAT-3 (no copy of the standards offline). "
+             "Allocation-coupled arguments go through constructors only up to 256 KiB; above that through marshall_cdb.",
+        ref="6 C01"),
+    "C02": dict(
+        technique="dictionary-level DictEncode/DictDecode of T10Cdb.tla checked for inverse-ness by TLC on every case; "
+                  "cases replayed into marshall_cdb/unmarshall_cdb; random joint assignments judged by Trace_Command",
+        text="For all 42 classes every exported case is encoded from its dictionary and decoded back through the real "
+             "static codecs and compared with the spec's prediction; joint all-max / alternating / random assignments "
+             "to all fields simultaneously are recorded and validated by TLC.",
+        note="Static calls are made right after constructing an instance of the same class (C09 isolates the "
+             "shared-register problem). Extra keys returned by the library are ignored.",
+        ref="6 C02"),
+    "C03": dict(
+        technique="data-phase rules (allocation length, tl x block size, SAT transfer rules) in T10Cdb.tla; predicted "
+                  "buffer lengths from MC_T10Cdb compared on real command objects; recorded constructions judged by TLC",
+        text="len(datain), len(dataout), buffer types and caller's-data identity checked for every constructible "
+             "case of the 42 classes incl. all 4x2x2x2 ATA modes x lengths x block sizes.",
+        note="READ CD is judged with an at-least rule; T_LENGTH=3 uses the caller's extra_tl. Transport-level "
+             "lengths (what sgio/iscsi receive) are covered with C07/C12.",
+        ref="6 C03"),
+    "C14": dict(
+        technique="T10 opcode/service-action/status tables in TLA+ (T10Opcodes.tla), self-consistency by TLC "
+                  "(MC_Opcodes); library tables walked exhaustively and judged by a stateful TLC trace spec",
+        text="Exhaustive: every entry of the five tables, every service-action entry, every status and all 256 opcode "
+             "values for the CDB length rule; SameNameSameValue is judged over the whole walk for all names.",
+        note="Values transcribed from memory and cross-read against scsi/scsi.h and linux/cdrom.h; names unknown to "
+             "the spec are listed as unjudged.",
+        ref="6 C14"),
+    "C17": dict(
+        technique="request state machine (Refuse.tla: idle->validated->refused|built->sent) model-checked by TLC; each "
+                  "request replayed against constructors/facade with a recording device; events judged by Trace_Refuse",
+        text="All refusal classes of the property: block size 0 over the whole argument star of every block/ATA class, "
+             "all 256 opcodes by two routes, PR IN service actions incl. large integers, XCOPY unknown keys / type codes "
+             "/ lu_id_type for both XCOPY classes, inconsistent TransportIDs, facade calls without block size; checked: "
+             "specific exception, execute count 0, no object.",
+        note="Known-but-unimplemented XCOPY type codes may be refused by ValueError or NotImplementedError.",
+        ref="6 C17"),
     "C10": dict(
         technique="TLA+ state machine of the codec (MC_Bits) model-checked by TLC; its terminal states replayed into "
                   "encode_dict/decode_bits; recorded calls judged by TLC against Bits.tla (Trace_Bits)",
